@@ -30,7 +30,8 @@ CHECKS["C12"] = dict(
     level_text="All operation histories over an 11-operation alphabet (storable/unstorable records, repeated address-event keys, explicit block writes, rotation, parameter switches incl. an out-of-range one) up to the depth bound are executed on the real CdnsExporter for 24 configurations; after every step return-value sign and all counters are compared with the reference model, at the end every output is parsed independently and compared block by block (sizes, order, conservation).",
     level_note="Trusted: harness/model.hpp (reference state machine), ref/ parser. The BFS merges two histories only if the reference-model state AND a digest of the exporter's / block's private members agree (the encoder's fill level and staged bytes are left out of the key: C06 shows the encoder is position independent; block counter and AEC counts saturate at 2); every transition is executed on a fresh real exporter and fully checked before de-duplication, so merging only prunes extensions. max_block_items > 3 and record shapes outside the pool are outside the claim.",
     stages=[dict(harness="hist", variant="plain", args=["--mode", "flush"], require=["blocks_validated"]),
-            dict(harness="hist", variant="plain", args=["--mode", "flush", "--bfs", "30", "--abstract", "1"], prefix="bfs_", require=["bfs_fixpoints"])],
+            dict(harness="hist", variant="plain", args=["--mode", "flush", "--bfs", "30", "--abstract", "1"], prefix="bfs_", require=["bfs_fixpoints"]),
+            dict(harness="val", variant="asan", args=["--mode", "values"], prefix="long_")],
     rule="stateless DFS: for each of 24 configurations (max_block_items {0,1,2,3}x{1,2}, hints {all, AEC+MM off, QR time/port only}) every history of length 0..D over the alphabet; a history is non-trivial if it has >= 1 operation; each is distinct by construction",
     bound_quick="stateless: every history of length <= 5 (11^5 per configuration); BFS with state de-duplication: run to the fixpoint of the abstract state space in all 24 configurations (deepest new state at depth 13, bound 30)", bound_thorough="stateless: every history of length <= 6; BFS: same fixpoint",
     assumptions=["the reference model (harness/model.hpp) states the intended buffering contract", "record contents are drawn from a fixed pool (7 QR, 3 AEC, 4 MM shapes)"],
@@ -47,6 +48,7 @@ CHECKS["C13"] = dict(
             dict(harness="hist", variant="plain", args=["--mode", "rotate-gz"], prefix="gz_"),
             dict(harness="hist", variant="plain", args=["--mode", "rotate-xz"], prefix="xz_"),
             dict(harness="val", variant="asan", args=["--mode", "align"], prefix="align_"),
+            dict(harness="val", variant="asan", args=["--mode", "values"], prefix="long_"),   # includes the trace with more than 2^16 blocks per output and a rotation at exactly 2^16
             dict(harness="hist", variant="plain", args=["--mode", "rotate", "--bfs", "8", "--abstract", "1"], prefix="bfs_", tiers=("quick",)),
             dict(harness="hist", variant="plain", args=["--mode", "rotate", "--bfs", "10", "--abstract", "1"], prefix="bfs_", tiers=("thorough",))],
     rule="stateless DFS over an 11-operation alphabet x 2 configurations x {named file, descriptor} x {plain, gzip, xz}; every history of length 0..D; non-trivial = at least one operation",
